@@ -1,0 +1,16 @@
+//go:build verif
+
+// Contracts for the lvc verifier (comment-only file, compiled only with -tags verif).
+
+package rgsw
+
+// ---- copy constructors (property C10) ----
+//@ copy Evaluator.ShallowCopy
+//@   copied Evaluator
+
+//@ copy Evaluator.WithKey
+//@   copied Evaluator
+
+//@ copy Encryptor.ShallowCopy
+//@   copied Encryptor
+//@   fresh buffQP
